@@ -153,6 +153,8 @@ def run(ctx):
         app_re = r"args_\.(emplace_back|push_back)\((%s\.str\(\)%s)\)" % (sn, "".join("|%s|move\(%s\)" % (re.escape(t), re.escape(t)) for t in texts))
         text_decl = [b for b in body if any(re.fullmatch(r".*\b%s = %s\.str\(\)" % (re.escape(t), sn), b) for t in texts)]
         other = [b for b in body if sn in b and b not in ins and b not in text_decl and not b.startswith("nitro::detail::formatter::stream_type") and not re.fullmatch(app_re, b) and "stream" not in b.split("=")[0]]
+        from .common import sets_default_flags
+        other = [b for b in other if not (fresh and sets_default_flags(b, sn))]
         ctx.check(not other, "R08.4", f, "stream-not-manipulated", "operator%% also does %s with the stream" % other, f)
         ctx.check(any(re.fullmatch(app_re, b) for b in body), "R08.4", f, "appends-text-at-end-of-args_", "the rendered text is not appended to args_ (%s)" % body, f)
         ctx.check(body[-1:] == ["return (*this)"], "R08.4", f, "returns-self", "operator%% returns %s" % body[-1:], f)
